@@ -279,7 +279,12 @@ let cmd_c13 (r : rd) : string =
       match s_artifact_of cm c.m (nat_of_int (if metered then 1 else 0)) bnames exports code with
       | None -> cfg ^ " noartifact @ "
       | Some sa ->
+          if not (view_okb cm c.m bnames code) then raise (Bad "view_okb false: side condition of to_machine_of_compiled violated");
+          if not (wf_artifactb sa) then raise (Bad "wf_artifactb false: the compiled artifact is outside the round-trip theorem");
           let bytes = output_artifact sa in
+          (match parse_artifact_strict bytes with
+           | Some (_, []) -> ()
+           | _ -> raise (Bad "strict parser rejects a serialised artifact"));
           (* the machine runs the RELOADED artifact: parse what was written *)
           let art = match parse_artifact bytes with
             | Some (sa', []) -> to_machine sa'
@@ -305,6 +310,42 @@ let cmd_c13 (r : rd) : string =
     end) in
   String.concat " ## " parts
 
+(* ---------- ENG: the v1 engine resume scenario (Contract/V1Resume.v) ----------
+   ENG <n> { <resp> <upd 0|1> <reentrant hex8|-> <refresh 0|1> <write hex8|-> }*n
+     resp = s | d:<hex> | f:<1..11> | r:<code>:<hex>
+   answer: w,rc1,b1,id2,rc2,b2;...;| <final value hex>     or  toomany *)
+let bytes_of_hex (h : string) : n list =
+  List.init (String.length h / 2) (fun i -> n_of_int64 (Int64.of_string ("0x" ^ String.sub h (2 * i) 2)))
+let failure_of_number (k : int) : invoke_failure =
+  match k with
+  | 1 -> FInsufficientAmount | 2 -> FNonExistentAccount | 3 -> FNonExistentContract | 4 -> FNonExistentEntrypoint
+  | 5 -> FSendingV0Failed | 6 -> FRuntimeError | 7 -> FUpgradeInvalidModuleRef | 8 -> FUpgradeInvalidContractName
+  | 9 -> FUpgradeInvalidVersion | 10 -> FSignatureDataMalformed | 11 -> FSignatureCheckFailed
+  | _ -> raise (Bad "failure number")
+let cmd_eng (r : rd) : string =
+  let k = num r in
+  let steps = times k (fun () ->
+    let resp = next r in
+    let upd = num r = 1 in
+    let reent = next r in
+    let refresh = num r = 1 in
+    let wr = next r in
+    let resp = match String.split_on_char ':' resp with
+      | ["s"] -> RSuccess (N0, None)
+      | ["d"; h] -> RSuccess (N0, Some (bytes_of_hex h))
+      | ["f"; kk] -> RFailure (failure_of_number (int_of_string kk))
+      | ["r"; code; h] -> RFailure (FContractReject (z_of_string code, bytes_of_hex h))
+      | _ -> raise (Bad "response") in
+    { es_resp = resp; es_upd = upd; es_reentrant = (if reent = "-" then None else Some (bytes_of_hex reent));
+      es_refresh = refresh; es_write = (if wr = "-" then None else Some (bytes_of_hex wr)) }) in
+  match engine_scenario steps with
+  | None -> "toomany"
+  | Some (obs, fin) ->
+      String.concat ";" (List.map (fun o ->
+        Printf.sprintf "%s,%s,%s,%s,%s,%s" (ustr (int64_of_n o.eo_word)) (ustr (int64_of_n o.eo_rc1)) (hex_of_bytes o.eo_bytes1)
+          (ustr (int64_of_n o.eo_id2)) (ustr (int64_of_n o.eo_rc2)) (hex_of_bytes o.eo_bytes2)) obs)
+      ^ ";| " ^ hex_of_bytes fin
+
 let () =
   try
     while true do
@@ -315,6 +356,7 @@ let () =
         try
           (match next r with
            | "C13" -> cmd_c13 r
+           | "ENG" -> cmd_eng r
            | c -> "ERR unknown command " ^ c)
         with
         | Bad s -> "ERR " ^ s
